@@ -19,6 +19,10 @@ def errOut (p : Prog Nat) : Prog Out := do
   let r ← p
   pure { ret := toString r }
 
+def stpOut (regs : Array Region) (errpos : Nat) (p : Prog (Nat × Nat)) : Prog Out := do
+  let (ptr, err) ← p
+  pure { ret := showPtr regs ptr, outs := [(errpos, toString err)] }
+
 def dispatch (fn : String) (c : Ctx) : Option (Prog Out) :=
   match fn with
   | "strcpy_s" => do
@@ -33,6 +37,24 @@ def dispatch (fn : String) (c : Ctx) : Option (Prog Out) :=
   | "strncat_s" => do
     let d ← c.p 0; let m ← c.n 1; let s ← c.p 2; let l ← c.n 3; let b ← c.b 4; let sb ← c.b 5
     pure (errOut (strncat_s c.cfg d m s l b sb))
+  | "wcscpy_s" => do
+    let d ← c.p 0; let m ← c.n 1; let s ← c.p 2; let b ← c.b 3
+    pure (errOut (wcscpy_s c.cfg d m s b))
+  | "wcscat_s" => do
+    let d ← c.p 0; let m ← c.n 1; let s ← c.p 2; let b ← c.b 3
+    pure (errOut (wcscat_s c.cfg d m s b))
+  | "wcsncpy_s" => do
+    let d ← c.p 0; let m ← c.n 1; let s ← c.p 2; let l ← c.n 3; let b ← c.b 4; let sb ← c.b 5
+    pure (errOut (wcsncpy_s c.cfg d m s l b sb))
+  | "wcsncat_s" => do
+    let d ← c.p 0; let m ← c.n 1; let s ← c.p 2; let l ← c.n 3; let b ← c.b 4; let sb ← c.b 5
+    pure (errOut (wcsncat_s c.cfg d m s l b sb))
+  | "stpcpy_s" => do
+    let d ← c.p 0; let m ← c.n 1; let s ← c.p 2; let b ← c.b 4; let sb ← c.b 5
+    pure (stpOut c.regs 3 (stpcpy_s c.cfg d m s b sb))
+  | "stpncpy_s" => do
+    let d ← c.p 0; let m ← c.n 1; let s ← c.p 2; let l ← c.n 3; let b ← c.b 5; let sb ← c.b 6
+    pure (stpOut c.regs 4 (stpncpy_s c.cfg d m s l b sb))
   | "strnlen_s" => do
     let s ← c.p 0; let m ← c.n 1; let b ← c.b 2
     pure (errOut (strnlen_s s m b))
